@@ -515,7 +515,8 @@ def gen_desc(seed, idx):
     for k in range(rng.randint(0, 4)):
         if rng.random() < 0.2:
             if calendar_entries is None:
-                calendar_entries = [gen_entry(rng, day0, ndays) for _ in range(rng.randint(1, 3))]
+                # (an empty calendar is legal: the exception is then never in force)
+                calendar_entries = [gen_entry(rng, day0, ndays) for _ in range(rng.choice([0, 1, 1, 2, 3]))]
             period = {'kind': 'calref'}
         else:
             period = gen_entry(rng, day0, ndays)
@@ -600,7 +601,7 @@ def run_unit(unit):
 
 
 def units(tier, seed):
-    n = 8000 if tier == 'thorough' else 500
+    n = 8000 if tier == 'thorough' else 800
     return [{'kind': 'explore', 'seed': seed, 'start': k * 6, 'count': 6} for k in range(n)]
 
 
